@@ -183,6 +183,7 @@ class Parameter(AnnotatedValue):
             elif (
                 isinstance(value, AnnotatedValue)
                 and value.kind == ParamType.FLOAT
+                and hasattr(value, "value")
                 and int(value.value) == value.value
             ):
                 pass
